@@ -17,6 +17,6 @@ echo "== suite with patch"; cargo test --offline 2>&1 | grep -E "^test result|FA
 git checkout -q -- . && git clean -fdq
 cd /verif
 git -C /repo apply $OUT/patch.diff || { echo "PATCH DOES NOT APPLY TO /repo"; exit 2; }
-for c in "$@"; do echo "== check $c"; ./check $c 2>&1 | grep -v KNOWN | tail -3 | cut -c1-220; done
+for c in "$@"; do echo "== check $c"; ./check $c 2>&1 | grep -v KNOWN | tail -12 | cut -c1-220; done
 git -C /repo checkout -- . && git -C /repo clean -fdq
 git -C /repo status --short | head -3
